@@ -8,7 +8,7 @@ fields_of('ParameterList', _parameters='dict[str,any]')
 REG.frame_tags.update({'_parameters': ['C14'], 'dict[str,any]': ['C19', 'C14', 'C16'], 'list[any]': ['C11', 'C14', 'C16', 'C17'],
                        'list[list[tuple[str,any]]]': ['C14'], 'list[tuple[str,any]]': ['C14'],
                        'list[dict[str,any]]': ['C16']})
-REG.final_classes = getattr(REG, 'final_classes', set()) | {'ParameterList'}   # type(x) == ParameterList is exact
+REG.final_classes = getattr(REG, 'final_classes', set()) | {'ParameterList', 'SystemManager', 'TagLibrary', 'Decoder'}   # type(x) == ParameterList is exact
 
 
 # ------------------------------------------------------------------------------------------------ C14 declaration
